@@ -498,7 +498,18 @@ class SxInt:
         return o >> n
 
     def bit_length(s):
-        raise Unsupported("bit_length of symbolic int")
+        a = s if bool(s >= 0) else -s
+        if bool(a == 0):
+            return 0
+        k = 1
+        while not bool(a < (1 << k)):
+            k += 1
+            if k > 8192:
+                raise UnwindLimit("bit_length beyond 8192")
+        return k
+
+    def __abs__(s):
+        return s if bool(s >= 0) else -s
 
     # ---- bytes
     def to_bytes(s, length=1, byteorder="big", *, signed=False):
